@@ -276,11 +276,17 @@ func kfArrayRange(args []KeyBuilderStage) (KeyBuilderStage, error) {
 		}
 
 		var sb strings.Builder
-		for i := start; (incr > 0 && i < stop) || (incr < 0 && i > stop); i += incr {
+		for i := start; (incr > 0 && i < stop) || (incr < 0 && i > stop); {
 			if sb.Len() > 0 {
 				sb.WriteRune(ArraySeparator)
 			}
 			sb.WriteString(strconv.Itoa(i))
+
+			next := i + incr
+			if (incr > 0 && next < i) || (incr < 0 && next > i) { // overflow: the next element is past stop
+				break
+			}
+			i = next
 		}
 
 		return sb.String()
